@@ -56,7 +56,11 @@ def gen_plan(rng, tier, config, opts):
         if aligned:
             lines.append('SEG 0 999999999')      # up to the barrier one after the other (initialisation costs millions of blocks)
         lines.append('SEG 0 %d' % rng.randint(1, 2000))
-        lines.append('RR %d %d %d' % (rng.choice([100000, 250000, 500000]), rng.choice([1, 2, 3, 6]), rng.below(1 << 30)))
+        # slices of a few blocks only reach the first half million blocks behind the alignment point; a protocol run costs
+        # millions (hashing to primes, exponentiations), so most plans use slices of up to some tens or hundreds of blocks -
+        # still shorter than the window between the write and the use of a scratch buffer
+        nsl, mx = rng.choice([(500000, 3), (400000, 6), (300000, 40), (300000, 40), (200000, 200), (200000, 200), (150000, 600)])
+        lines.append('RR %d %d %d' % (nsl, mx, rng.below(1 << 30)))
         return '\n'.join(lines) + '\n'
     for t in range(k):
         if same:
